@@ -1464,9 +1464,9 @@ impl Property for C11 {
     }
     fn runs_for(&self, tier: &str) -> usize {
         if tier == "thorough" {
-            400_000
+            1_200_000
         } else {
-            12_000
+            30_000
         }
     }
     fn run(&self, seed: u64, index: usize, tier: &str) -> Result<RunReport, String> {
